@@ -404,7 +404,10 @@ func modelErrorf(x *Exec, fr *Frame, st *State, pc *preparedCall, k func(*State,
 	e := Var(x.fresh("err"), SInt)
 	st.assumeRaw(And(Gt(e, IntLit(100000)), Le(e, IntLit(1<<40))))
 	if f, ok := strLitOf(pc.args[0].(StrV)); ok {
-		// each %w operand is wrapped
+		// each %w operand is wrapped - and nothing else is: errors.Is(e, t) holds exactly
+		// when t is e, a %w operand, or something a %w operand wraps
+		var alts []*Term
+		qt := x.qvar("wt")
 		wi := 0
 		for i := 0; i+1 < len(f); i++ {
 			if f[i] == '%' {
@@ -413,6 +416,7 @@ func modelErrorf(x *Exec, fr *Frame, st *State, pc *preparedCall, k func(*State,
 						if o, ok := pc.args[1+wi].(OpaqueV); ok {
 							st.assumeRaw(App("wraps", SBool, e, o.T))
 							x.wrapFacts(st, e, o.T)
+							alts = append(alts, Eq(qt, o.T), App("wraps", SBool, o.T, qt))
 						}
 					}
 				}
@@ -423,6 +427,8 @@ func modelErrorf(x *Exec, fr *Frame, st *State, pc *preparedCall, k func(*State,
 				}
 			}
 		}
+		st.assumeRaw(Forall([]*Term{qt}, Eq(App("wraps", SBool, e, qt), Or(alts...))))
+		x.sentinelAxiom()
 	}
 	ret1(st, k, OpaqueV{T: e, Type: types.Universe.Lookup("error").Type()})
 }
@@ -433,6 +439,16 @@ func (x *Exec) wrapFacts(st *State, e, inner *Term) {
 		s := IntLit(id)
 		st.assumeRaw(Implies(App("wraps", SBool, inner, s), App("wraps", SBool, e, s)))
 	}
+}
+
+// sentinelAxiom: errors made by errors.New at package level (ids 1000..100000) wrap nothing.
+func (x *Exec) sentinelAxiom() {
+	if x.sentinelAxiomDone {
+		return
+	}
+	x.sentinelAxiomDone = true
+	e, t := Var("qe_sent", SInt), Var("qt_sent", SInt)
+	x.GlobalFacts = append(x.GlobalFacts, Forall([]*Term{e, t}, Implies(And(Ge(e, IntLit(0)), Le(e, IntLit(100000))), Not(App("wraps", SBool, e, t)))))
 }
 
 func modelErrorsNew(x *Exec, fr *Frame, st *State, pc *preparedCall, k func(*State, []Value)) {
